@@ -1,2 +1,90 @@
 // In-crate child probe of acmed/src/config.rs (feature breard_r_acmed_verif): private access to the parent module.
+// Owner: property C14.  `cnf_dump` runs the REAL `read_cnf` (fresh loaded-set) + the REAL
+// `dispatch_global_env_vars` — i.e. `from_file` without `init_directories`, so that a tree whose
+// directories are the built-in defaults can be examined without creating anything outside the
+// scratch directory — and reports what the real getters answer for every certificate.
 #![allow(dead_code, unused_imports)]
+use super::*;
+use serde_json::{json, Value};
+
+fn sorted_env(env: &HashMap<String, String>) -> Value {
+	let mut v: Vec<(&String, &String)> = env.iter().collect();
+	v.sort();
+	Value::Array(v.iter().map(|(k, val)| json!([k, val])).collect())
+}
+
+fn dur(r: Result<Duration, Error>) -> Value {
+	match r {
+		Ok(d) => json!({"ok": d.as_secs().to_string()}),
+		Err(e) => json!({"err": e.message}),
+	}
+}
+
+fn global_json(g: &Option<GlobalOptions>) -> Value {
+	match g {
+		None => Value::Null,
+		Some(g) => json!({
+			"accounts_directory": g.accounts_directory,
+			"cert_file_group": g.cert_file_group,
+			"cert_file_mode": g.cert_file_mode,
+			"cert_file_user": g.cert_file_user,
+			"cert_file_ext": g.cert_file_ext,
+			"certificates_directory": g.certificates_directory,
+			"env": sorted_env(&g.env),
+			"file_name_format": g.file_name_format,
+			"pk_file_group": g.pk_file_group,
+			"pk_file_mode": g.pk_file_mode,
+			"pk_file_user": g.pk_file_user,
+			"pk_file_ext": g.pk_file_ext,
+			"random_early_renew": g.random_early_renew,
+			"renew_delay": g.renew_delay,
+			"root_certificates": g.root_certificates,
+		}),
+	}
+}
+
+/// op c14_cnf: {"path": main file} -> {"rejected": msg} | {"cnf": {...}}
+pub fn cnf_dump(input: &Value) -> Value {
+	let path = PathBuf::from(input["path"].as_str().unwrap_or(""));
+	let mut loaded = BTreeSet::new();
+	let mut config = match read_cnf(&path, &mut loaded) {
+		Ok(c) => c,
+		Err(e) => return json!({"rejected": e.message}),
+	};
+	dispatch_global_env_vars(&mut config);
+	let certs: Vec<Value> = config
+		.certificate
+		.iter()
+		.map(|c| {
+			json!({
+				"name": c.name,
+				"crt_name": c.get_crt_name().ok(),
+				"key_type": c.get_key_type().ok().map(|k| k.to_string()),
+				"endpoint": c.endpoint,
+				"account": c.account,
+				"hooks": c.hooks,
+				"env": sorted_env(&c.env),
+				"renew_delay": dur(c.get_renew_delay(&config)),
+				"random_early_renew": dur(c.get_random_early_renew(&config)),
+				"file_name_format": match c.get_crt_name_format(&config) {
+					Ok(s) => json!({"ok": s}),
+					Err(e) => json!({"err": e.message}),
+				},
+				"directory": c.get_crt_dir(&config),
+			})
+		})
+		.collect();
+	json!({"cnf": {
+		"loaded": loaded.iter().map(|p| p.display().to_string()).collect::<Vec<String>>(),
+		"global": global_json(&config.global),
+		"account_dir": config.get_account_dir(),
+		"cert_file_mode": config.get_cert_file_mode(),
+		"pk_file_mode": config.get_pk_file_mode(),
+		"endpoints": config.endpoint.iter().map(|e| e.name.clone()).collect::<Vec<String>>(),
+		"rate_limits": config.rate_limit.iter().map(|e| e.name.clone()).collect::<Vec<String>>(),
+		"hooks": config.hook.iter().map(|e| json!([e.name, e.cmd])).collect::<Vec<Value>>(),
+		"groups": config.group.iter().map(|e| e.name.clone()).collect::<Vec<String>>(),
+		"accounts": config.account.iter().map(|a| json!({"name": a.name, "env": sorted_env(&a.env)})).collect::<Vec<Value>>(),
+		"certificates": certs,
+	}})
+}
